@@ -130,6 +130,10 @@ class ExprMixin:
         v = self.ev(node)
         if isinstance(v, LazySeq):
             v = self.materialize(v)
+        if isinstance(v, DictView) and getattr(v, "sorted_", False):
+            # sorted(d) / sorted(d.items()) used as a value: the list of keys / items in sorted order
+            v = self.materialize(LazySeq(v, ast.Name("_x", ast.Store()), [], ast.Name("_x", ast.Load()),
+                                         dict(self.st.env), "list"))
         if isinstance(v, ClassRef):
             return SV(self.w.type_const(v.name), T.TYPE)
         if not isinstance(v, SV):
